@@ -461,6 +461,25 @@ def click_declarations(fn: ast.FunctionDef) -> list[tuple[ast.AST, str, str]]:
 
 
 # ------------------------------------------------------------------------------------------------------------ H9
+def _is_path_value(fn: ast.AST, recv: Optional[ast.AST]) -> bool:
+    """Is the receiver of a bare `.open()` a pathlib path (bound from Path(...) / annotated as a path) rather than a lazily
+    opened click file?"""
+    if recv is None:
+        return False
+    if isinstance(recv, ast.Call) and ast.unparse(recv.func) in ("Path", "PurePath", "pathlib.Path"):
+        return True
+    if isinstance(recv, ast.BinOp) and isinstance(recv.op, ast.Div):
+        return True
+    if isinstance(recv, ast.Name):
+        for n in ast.walk(fn):
+            if isinstance(n, ast.Assign) and any(isinstance(t, ast.Name) and t.id == recv.id for t in n.targets) \
+                    and isinstance(n.value, ast.Call) and ast.unparse(n.value.func) in ("Path", "PurePath", "pathlib.Path"):
+                return True
+            if isinstance(n, ast.arg) and n.arg == recv.id and n.annotation is not None and ast.unparse(n.annotation) in ("Path", "StrPath", "pathlib.Path", "PurePath"):
+                return True
+    return False
+
+
 def implicit_text_encoding(fn: ast.AST) -> list[tuple[ast.AST, str, str]]:
     """Text-mode file I/O without an explicit encoding uses the LOCALE's encoding: what one command writes (or reads) then
     depends on LANG / LC_ALL, while every reader of the package opens the same files as UTF-8."""
@@ -476,7 +495,8 @@ def implicit_text_encoding(fn: ast.AST) -> list[tuple[ast.AST, str, str]]:
             if last == "read_text" and c.args or last == "write_text" and len(c.args) >= 2:
                 continue   # encoding given positionally
             out.append((c, last, f"`{ast.unparse(c)[:70]}` names no encoding"))
-        elif name in ("open", "io.open", "codecs.open") or (last == "open" and (c.args or any(kw.arg == "mode" for kw in c.keywords))):
+        elif name in ("open", "io.open", "codecs.open") or (last == "open" and (c.args or any(kw.arg == "mode" for kw in c.keywords)
+                                                                                 or _is_path_value(fn, c.func.value if isinstance(c.func, ast.Attribute) else None))):
             args = c.args[1:] if name in ("open", "io.open", "codecs.open") else c.args
             mode = args[0] if args else next((kw.value for kw in c.keywords if kw.arg == "mode"), None)
             mtxt = mode.value if isinstance(mode, ast.Constant) and isinstance(mode.value, str) else ("r" if mode is None else None)
@@ -485,6 +505,90 @@ def implicit_text_encoding(fn: ast.AST) -> list[tuple[ast.AST, str, str]]:
             if name not in ("open", "io.open", "codecs.open") and len(args) >= 3:
                 continue
             out.append((c, "open", f"`{ast.unparse(c)[:70]}` opens a text file without naming an encoding"))
+    return out
+
+
+# ------------------------------------------------------------------------------------------------------------ H11 / H12
+def unbound_after_swallow(fn: ast.FunctionDef) -> list[tuple[ast.AST, str, str]]:
+    """H11: a name bound only inside a `try` body, a handler of that try that can complete normally without binding it,
+    and a read of the name after the try statement: on the handled path the read raises UnboundLocalError."""
+    out = []
+    params = {a.arg for a in fn.args.args + fn.args.kwonlyargs + fn.args.posonlyargs}
+    if fn.args.vararg:
+        params.add(fn.args.vararg.arg)
+    if fn.args.kwarg:
+        params.add(fn.args.kwarg.arg)
+
+    def bound_names(stmts) -> set[str]:
+        names = set()
+        for st in stmts:
+            for n in ast.walk(st):
+                if isinstance(n, ast.Name) and isinstance(n.ctx, ast.Store):
+                    names.add(n.id)
+                elif isinstance(n, (ast.FunctionDef, ast.ClassDef)):
+                    names.add(n.name)
+                elif isinstance(n, ast.alias):
+                    names.add((n.asname or n.name).split(".")[0])
+        return names
+
+    def completes(stmts) -> bool:
+        if not stmts:
+            return True
+        last = stmts[-1]
+        if isinstance(last, (ast.Raise, ast.Return, ast.Continue, ast.Break)):
+            return False
+        if isinstance(last, ast.If) and last.orelse:
+            return completes(last.body) or completes(last.orelse)
+        if isinstance(last, ast.Expr) and isinstance(last.value, ast.Call) and ast.unparse(last.value.func) in ("sys.exit", "ctx.exit", "exit", "os._exit"):
+            return False
+        return True
+
+    def visit(block: list, before: set[str]):
+        seen = set(before)
+        for i, st in enumerate(block):
+            if isinstance(st, ast.Try):
+                body_names = bound_names(st.body) - seen
+                for h in st.handlers:
+                    if not completes(h.body):
+                        continue
+                    missing = body_names - bound_names(h.body) - ({h.name} if h.name else set())
+                    if not missing:
+                        continue
+                    # names bound by finally / else do not help on the handler path (else is skipped)
+                    missing -= bound_names(st.finalbody)
+                    later = block[i + 1:]
+                    for name in sorted(missing):
+                        reads = [n for l in later for n in ast.walk(l) if isinstance(n, ast.Name) and n.id == name and isinstance(n.ctx, ast.Load)]
+                        rebinds_first = False
+                        if reads:
+                            first = min(reads, key=lambda n: (n.lineno, n.col_offset))
+                            rebinds_first = any(isinstance(n, ast.Name) and n.id == name and isinstance(n.ctx, ast.Store)
+                                                and (n.lineno, n.col_offset) < (first.lineno, first.col_offset)
+                                                for l in later for n in ast.walk(l))
+                        if reads and not rebinds_first:
+                            out.append((h, name, f"`{name}` is bound only in the try body at line {st.lineno}; the handler `except "
+                                                 f"{ast.unparse(h.type) if h.type else ''}` completes without binding it and `{name}` is read at line {first.lineno}"))
+            # recurse into compound statements with the names seen so far
+            for fld in ("body", "orelse", "finalbody"):
+                sub = getattr(st, fld, None)
+                if isinstance(sub, list) and sub and isinstance(sub[0], ast.stmt) and not isinstance(st, (ast.FunctionDef, ast.AsyncFunctionDef, ast.ClassDef)):
+                    visit(sub, seen)
+            if isinstance(st, ast.Try):
+                for h in st.handlers:
+                    visit(h.body, seen)
+            seen |= bound_names([st])
+
+    visit(fn.body, params)
+    return out
+
+
+def empty_consequence(fn: ast.AST) -> list[tuple[ast.AST, str, str]]:
+    """H12: `if TEST: pass` without an else branch (also `elif`), where TEST has no call that could be wanted for its effect -
+    a check whose result is not used: the consequence (a raise, a return, a skip) has been removed."""
+    out = []
+    for n in _own_nodes(fn):
+        if isinstance(n, ast.If) and not n.orelse and len(n.body) == 1 and isinstance(n.body[0], ast.Pass):
+            out.append((n, "", f"`if {ast.unparse(n.test)[:70]}: pass` - the test is evaluated and nothing follows from it"))
     return out
 
 
@@ -647,6 +751,34 @@ def h4(text):
 def h4_ok(text):
     import re
     return re.sub("a.*?b", "", text, flags=re.DOTALL) + re.sub("a", "", text, 1)
+def h11(root):
+    try:
+        project = load(root)
+    except OSError:
+        pass
+    return project
+def h11_ok(root, flag):
+    project = None
+    try:
+        project = load(root)
+        extra = 1
+    except OSError as err:
+        raise Usage(str(err)) from err
+    except ValueError:
+        extra = 2
+    return project, extra
+def h12(x):
+    if not isinstance(x, list):
+        pass
+    return [i for i in x]
+def h12_ok(x):
+    if not isinstance(x, list):
+        raise TypeError(x)
+    if x:
+        pass
+    else:
+        return []
+    return x
 def h3_ok(names):
     out = []
     for n in names:
@@ -675,8 +807,10 @@ def self_control() -> Optional[str]:
         "h7": bool(enum_aliases(ast.parse(H7_BAD))), "h7_ok": bool(enum_aliases(ast.parse(H7_OK))),
         "h8": len(click_declarations(fns["h8"])) == 2, "h8_ok": bool(click_declarations(fns["h8_ok"])),
         "h9": len(implicit_text_encoding(fns["h9"])) == 2, "h9_ok": bool(implicit_text_encoding(fns["h9_ok"])),
+        "h11": bool(unbound_after_swallow(fns["h11"])), "h11_ok": bool(unbound_after_swallow(fns["h11_ok"])),
+        "h12": bool(empty_consequence(fns["h12"])), "h12_ok": bool(empty_consequence(fns["h12_ok"])),
     }
-    want = {"h1": True, "h1_ok": False, "h2": True, "h2_loop": True, "h2_ok": False, "h3": True, "h3_ok": False, "h4": True, "h4_ok": False, "h5": True, "h5_ok": False, "h6": True, "h6_ok": False, "h7": True, "h7_ok": False, "h8": True, "h8_ok": False, "h9": True, "h9_ok": False}
+    want = {"h1": True, "h1_ok": False, "h2": True, "h2_loop": True, "h2_ok": False, "h3": True, "h3_ok": False, "h4": True, "h4_ok": False, "h5": True, "h5_ok": False, "h6": True, "h6_ok": False, "h7": True, "h7_ok": False, "h8": True, "h8_ok": False, "h9": True, "h9_ok": False, "h11": True, "h11_ok": False, "h12": True, "h12_ok": False}
     return None if got == want else f"hygiene positive control: {got}"
 
 
@@ -719,6 +853,14 @@ def run(ck, repo: Repo, rid: str = "H") -> None:
             r.violation(q, f"H5 comprehension clauses in the wrong order: {what}",
                         "the first clause's iterable is evaluated OUTSIDE the comprehension: the name resolves to whatever an earlier loop left"
                         " in it (its last element only), or to a NameError on a path where no such variable exists", repo.loc(node))
+        for node, name, what in unbound_after_swallow(fn):
+            r.violation(q, f"H11 a name is unbound after a swallowed exception: {what}",
+                        "on the path through that handler the read raises UnboundLocalError - the handled error turns into a traceback",
+                        repo.loc(node))
+        for node, name, what in empty_consequence(fn):
+            r.violation(q, f"H12 a check without consequence: {what}",
+                        "whatever the check was guarding against (a wrong type, a missing file, an unsupported option) now passes",
+                        repo.loc(node))
         for node, name, what in late_binding(fn):
             r.violation(q, f"H3 late-binding closure: {what}",
                         "all closures created by the loop share the variable and see its LAST value when they are finally called", repo.loc(node))
